@@ -29,6 +29,29 @@ def attendSpec (th e : κ → κ) (fl : Flavour κ) (D : Nat) (q : List κ) (ks 
   (List.range D).map (fun d =>
     (kept.map (fun kv => e (score th fl q kv.1) / Z * kv.2.getD d 0)).sum)
 
+/-! ## The attention over a sequence as the mixture of the attentions over its consecutive blocks
+
+Cut the sequence into consecutive blocks (`ns` = block lengths, the remainder is a last block).  Block `B`
+enters with its SHARE `m_B` = the sum of the whole-sequence attention weights inside it; a block without a
+kept position has share 0 and is left out (the code returns NaN there).  `mergeBlocks` is
+`Σ_B m_B · attend(block B)_d`, the lists being consumed block by block; the weights `ws` of the WHOLE
+sequence are cut along with keys, values and mask.  (`C20_split_merge`: this is `attend` of the whole
+sequence — what an implementation working block by block, or a hierarchical / streaming softmax, relies on,
+and what the harness checks on the implementation for a random split.) -/
+
+/-- One block's contribution to coordinate `d`: share times the block's own attention output. -/
+def blockTerm (th e : κ → κ) (fl : Flavour κ) (D : Nat) (q : List κ) (d : Nat)
+    (ws : List κ) (ks vs : List (List κ)) (m : List Bool) : κ :=
+  if true ∈ m then ws.sum * (attend th e fl D q ks vs (some m)).getD d 0 else 0
+
+/-- `Σ_B share_B · attend(block B)_d` over the consecutive blocks `ns` describes. -/
+def mergeBlocks (th e : κ → κ) (fl : Flavour κ) (D : Nat) (q : List κ) (d : Nat) :
+    List Nat → List κ → List (List κ) → List (List κ) → List Bool → κ
+  | [], ws, ks, vs, m => blockTerm th e fl D q d ws ks vs m
+  | n :: ns, ws, ks, vs, m =>
+    blockTerm th e fl D q d (ws.take n) (ks.take n) (vs.take n) (m.take n)
+      + mergeBlocks th e fl D q d ns (ws.drop n) (ks.drop n) (vs.drop n) (m.drop n)
+
 /-! ## The score functions as the docstrings write them (index sums) -/
 
 /-- `Σ_{i < n} f i`. -/
